@@ -74,6 +74,8 @@ impl TypeEnv {
         match t.as_ref() {
             TypeInner::Var(id) => self.trace_type_with_depth(self.find_type(id)?, depth),
             TypeInner::Knot(ref id) => {
+                #[cfg(feature = "verif-hooks")]
+                crate::verif::probe("knot_resolved_through_memo");
                 self.trace_type_with_depth(&crate::types::internal::find_type(id).unwrap(), depth)
             }
             _ => Ok(t.clone()),
